@@ -15,7 +15,8 @@ LEVEL = 'exploration'
 RULE = ("enumeration: A in {stop, start, restart, reload (3 modes), incr, "
         "decr, set, rm, add+start, reloadconfig (no file; file with a watcher "
         "added / changed / removed / resized; [circus] changed), periodic "
-        "check, incr with "
+        "check (also as the first operation: started by a client connection "
+        "it starts an on-demand watcher while B arrives), incr with "
         "ill-typed nb, restart with a failing hook / exec failure} x B in "
         "the exclusive commands x every progress point of A (m timer jumps, "
         "with and without running the loop first).  histories: random "
@@ -50,6 +51,8 @@ def _is_exclusive(cmd, props, singletons):
 
 
 def execute(case):
+    if case.get("ondemand_check"):
+        return execute_ondemand(case)
     case = dict(case)
     case["watchers"] = list(case["watchers"]) + [dict(PROBE_WATCHER)]
     h = History(case)
@@ -230,6 +233,75 @@ def execute(case):
     nontrivial = bool({'B-inside-A', 'A-failed-asynchronously',
                        'check-inside-A'} & classes)
     return out, nontrivial, sorted(classes)
+
+
+def execute_ondemand(case):
+    """The periodic check is the first operation: a client connection makes
+    it start an on-demand watcher (3 workers, 0.3 s apart); a request that
+    arrives while that start is still in progress (fewer than 3 workers
+    spawned, also after the loop ran at that instant) must be refused."""
+    bcmd, bprops = B_KINDS[case["b"]]
+    hc = {"watchers": [
+        {"name": "w0", "numprocesses": 3, "graceful_timeout": 0.3,
+         "warmup_delay": 0.3, "on_demand": True, "use_sockets": True},
+        {"name": "w1", "numprocesses": 1, "graceful_timeout": 0.3,
+         "autostart": False},
+        {"name": "w2", "numprocesses": 1, "graceful_timeout": 0.2},
+        dict(PROBE_WATCHER)],
+        "sockets": ["unix"], "default_beh": {"react": "die", "delay": 0.05},
+        "tape": [], "ops": []}
+    h = History(hc)
+    w = h.world
+    k = w.kernel
+    viols = []
+    classes = set(['ondemand-check'])
+    try:
+        h.start()
+        h.connect(0)
+        w.check()
+        for _ in range(case["m"]):
+            w.advance_to_next_timer()
+        if case.get("idle_first"):
+            w.run_idle()
+
+        def started():
+            return len([r for r in k.spawn_log if r["owner"] == 'w0' and
+                        r["pid"] is not None])
+        n_before = started()
+        snap = _snapshot(w)
+        req = w.request(bcmd, dict(bprops))
+        rep = req.reply() if req.sync_replies else None
+        snap1 = _snapshot(w)
+        w.run_idle()
+        if 0 < n_before < 3 and started() < 3:
+            classes.add('B-inside-A')
+            if rep is None or rep.get("status") != "error":
+                viols.append(Violation(
+                    'C10:overlap-accepted:%s-during-check' % bcmd,
+                    '%s issued while the periodic check was still starting '
+                    'the on-demand watcher (%d of 3 workers) was answered '
+                    '%r' % (bcmd, n_before, rep)))
+            elif CONFLICT in str(rep.get("reason")):
+                classes.add('conflict-error')
+                if snap1 != snap:
+                    viols.append(Violation(
+                        'C10:refused-request-had-effect:%s-during-check'
+                        % bcmd, 'refused %s changed spawn/signal/event '
+                        'counts %r -> %r' % (bcmd, snap, snap1)))
+        w.drain()
+        if w.blocked:
+            viols.append(Violation('C10:blocked:%s' % w.blocked_where,
+                                   'event loop blocked'))
+        elif not w.exited and not w.arbiter._restarting:
+            pr = w.request('set', {"name": "probe", "options": {}})
+            rp = pr.reply()
+            if rp is None or rp.get("status") != "ok":
+                viols.append(Violation(
+                    'C10:slot-not-freed:after-on-demand-check',
+                    'exclusive probe after quiescence answered %r' % (rp,)))
+    finally:
+        h.close()
+    return viols, 'B-inside-A' in classes, sorted(classes)
 
 
 def replay(case):
@@ -448,6 +520,7 @@ def plan(tier, seed):
     for i, ks in enumerate(kinds):
         shards[i % 8].append(ks)
     specs = [{"kind": "enum", "as": s} for s in shards if s]
+    specs.append({"kind": "ondemand"})
     n = 1200 if tier == 'quick' else 12000
     specs += [{"kind": "random", "seed": seed * 100 + i, "n": n}
               for i in range(8)]
@@ -456,6 +529,26 @@ def plan(tier, seed):
 
 def run_shard(spec):
     stats = Stats()
+    if spec["kind"] == 'ondemand':
+        found = {}
+        for b in sorted(B_KINDS):
+            for m in range(0, 6):
+                for idle_first in (False, True):
+                    case = {"ondemand_check": True, "b": b, "m": m,
+                            "idle_first": idle_first}
+                    v, nt, cl = execute(case)
+                    stats.record(case, nt, cl)
+                    for x in v:
+                        if x["signature"] in spec["known"]:
+                            stats.known_hits[x["signature"]] = \
+                                stats.known_hits.get(x["signature"], 0) + 1
+                        elif x["signature"] not in found:
+                            found[x["signature"]] = {
+                                "signature": x["signature"],
+                                "message": x["message"], "case": case}
+        res = stats.as_dict()
+        res["violations"] = list(found.values())
+        return res
     if spec["kind"] == 'enum':
         found = _enumerate(spec, stats)
         res = stats.as_dict()
